@@ -215,8 +215,10 @@ static Result run_bonded(const json &c) {
     r.nontrivial = unequal && off90;
   if (unequal) r.cls("lengths-differ>5%");
   if (nb > 2 && off90) r.cls("angles-off-90deg");
-  for (ld th : g.theta)
+  for (ld th : g.theta) {
     if (th < 10 || th > 170) r.cls("angle-near-collinear(3..10deg)");
+    if (th < 2 || th > 178) r.cls("angle-within-2deg-of-collinear");
+  }
   if (nb == 4 && (fabsl(g.phi) < 10 || fabsl(g.phi) > 170)) r.cls("dihedral-near-0/180");
 
   // ---- analytic gradient and numerical gradient at A
@@ -423,6 +425,8 @@ static json gen_bonded(const std::string &kind) {
       deg = pick<double>({90.0, 60.0, 120.0, 45.0, 135.0, 109.5});
     else if (k == 1)
       deg = pick<double>({3.5, 4.0, 176.0, 176.5, 5.0, 175.0});
+    else if (k == 2 && rbool(50))  // stretched / folded (the acos derivative is large there, not singular)
+      deg = pick<double>({0.5, 0.75, 1.0, 1.5, 178.5, 179.0, 179.25, 179.5});
     else
       deg = double(ri(28, 1412)) / 8.0;
     return deg * M_PI / 180.0;
